@@ -224,7 +224,10 @@ class Recorder:
             return {"size": int(val(h.size)), "keys": [str(x) for x in h.keys],
                     "getent": [opt(h.get(key), lambda b: _num(b.entries)) for key in ks]}
         if k in ("Index", "Branch"):
-            return {"size": int(val(h.size)), "getent": [opt(h.get(i), lambda b: _num(b.entries)) for i in ks]}
+            out = {"size": int(val(h.size)), "getent": [opt(h.get(i), lambda b: _num(b.entries)) for i in ks]}
+            if k == "Branch" and len(h.values) <= 10:
+                out["ient"] = [_num(getattr(h, "i%d" % i).entries) for i in range(len(h.values))]
+            return out
         return {}
 
     def step(self, op):
